@@ -38,6 +38,8 @@ type World struct {
 	reach      map[*ssa.Function]bool
 	timeCache  map[*ssa.Global]time.Time
 	globalFacts map[*types.Var]globalFact
+	structCache map[string]string
+	globalConsts map[*types.Var]globalFact
 }
 
 type Trace struct {
